@@ -66,6 +66,7 @@ Expected(q) ==
      Tn |-> Tn(q), Ti |-> Ti(q),
      dT |-> [k \in 1..4 |-> dTnum(q, k)],                  \* s^2 dT/dP_k
      dTi |-> [k \in 1..4 |-> dTi(q, k)],                   \* 2 dTinv/dP_k
+     dTun |-> [k \in 1..4 |-> dTn(q, k)],                  \* the non-normalising variant 2 Tn is linear in P: half its derivative
      qprod |-> [i \in 1..3 |-> QProd(q, QFixed[i])], qprodr |-> [i \in 1..3 |-> QProd(QFixed[i], q)],
      skew |-> Skew(V(q)), skewsq |-> MatMul(Skew(V(q)), Skew(V(q))), cross |-> Cross(V(q), WFixed),
      pdot2 |-> Pdot2(q, WFixed)]
